@@ -32,7 +32,7 @@ GEN = ['hidc.codegen.generator.CodeGen.eval_expr', 'hidc.codegen.generator.CodeG
 def run_initializer(el, w, unchecked):
     el = {'int': I, 'byte': Y, 'bool': B, 'string': S}[el]
     res = []
-    for lsh in ('opaque', 'local', 'glob', 'literal'):
+    for lsh in ('opaque', 'local', 'glob', 'literal', 'narrowed'):
         L = Lemma(f'guard/array-initializer/{el}/len={lsh}/w{w}/{"unchecked" if unchecked else "checked"}', w, unchecked)
         L.functions.update(GEN)
         try:
@@ -46,8 +46,13 @@ def one_initializer(L, el, lsh, w, unchecked):
     cg = L.cg; c = L.ctx; E = L.entry.regs
     P_SIM = ('C04', 'C05', 'C08') + (('C15',) if unchecked else ())
     if lsh == 'literal':
-        n_lit = L.sym('Klen', 0, (1 << (L.bits - 1)) - 1)          # the typechecker hands an in-range literal (global sizes are checked separately)
+        # any literal of the signed word range: a negative constant length is accepted by the typechecker and must fault at run time like a
+        # negative run-time length (C05: "a negative or unrepresentably large dynamic array length")
+        n_lit = L.sym('Klen', -(1 << (L.bits - 1)), (1 << (L.bits - 1)) - 1)
         n_expr = ast.IntValue(n_lit, SPAN)
+    elif lsh == 'narrowed':
+        # `(p + q) is byte` as a length: the narrowing must be applied before the value is used as an int
+        n_expr = ast.ByteToInt(ast.IntToByte(ast.Add(None, L.opaque('np'), L.opaque('nq'))))
     else:
         n_expr = getattr(L, lsh)('n', I)
     e = ast.ArrayInitializer(ArrayType(el, const=False), n_expr)
@@ -123,6 +128,9 @@ def one_initializer(L, el, lsh, w, unchecked):
 
 
 def length_value(L, leaf, lsh, n_expr):
+    if lsh == 'narrowed':
+        vals = [e[2].value for e in leaf.st.trace if e[0] == 'child' and e[2].value is not None]
+        return isa.arith('add', vals[0], vals[1], L.w, ()) % 256
     if lsh == 'opaque':
         for e in leaf.st.trace:
             if e[0] == 'child' and e[2].value is not None:
@@ -153,6 +161,16 @@ def replay_initializer(el, w):
             return {'reproduced': None, 'how': f'witness did not compile: {e}'}
         if not (res == 'error' and vm.flags[:1] == ['stack_overflow']):
             bad.append({'n': n, 'i': i, 'end': res, 'flags': vm.flags, 'output': vm.out.decode('latin1')})
+    # the same with a compile-time constant length
+    for n in (-1, -7, -8, -(1 << (8 * w - 1)) + 2):
+        src_c = (f'empty @is_you(int i) {{ byte[] guard = [1,2,3,4]; {t} a[{n}]; byte[] after = [5,6,7,8]; a[i] = {val}; '
+                 'for (int k = 0; k < 4; k += 1) { write((guard[k] + 48) is byte); write((after[k] + 48) is byte); } }')
+        try:
+            res, vm = svm.run_hid(src_c, args=['3'], word_size=w, stack_size=60)
+            if not (res == 'error' and vm.flags[:1] == ['stack_overflow']):
+                bad.append({'constant_length': n, 'i': 3, 'end': res, 'flags': vm.flags, 'output': vm.out.decode('latin1'), 'program': src_c})
+        except CompilerError:
+            pass          # rejecting a negative constant length at compile time would be fine too
     return {'reproduced': bool(bad), 'how': 'hidc-compiled program on hidv.sphinx.svm: a negative dynamic length must raise stack_overflow', 'program': src,
             'observed': bad[:3] or 'all negative lengths fault'}
 
